@@ -398,7 +398,7 @@ def check(ctx):
                                'a downstream that would accept the part is never asked', node=h)
                     else:
                         o.witness((k.name, nm))
-    o.require(len(o.nontrivial) >= 3, 'fewer than 3 hand-over loops found')
+    o.require(len(o.nontrivial) >= 2, 'fewer than 2 hand-over loops found (the device loop and the pass-through loop)')
 
     # ---- C03.11 restore ---------------------------------------------------------------------------------------
     o = Ob('C03.11', 'K2', 'a restored machine re-offers a finished part and announces free space whatever the waiting flag says '
